@@ -19,7 +19,7 @@ EXPLANATION = (
     "never by first appearance in the rows: target_rate groups with sorted keys before its stable sort)."
 )
 NOT_DECIDED = "the invariance itself on data (numerical equality of partitions); ties between equal target rates of categories"
-FLOORS = {"R-order-only": 3, "R-order-statistic": 3, "R-label-injective": 1, "R-aligned-pairs": 4, "R-index-kept": 1, "R-row-order-free": 2}
+FLOORS = {"R-order-only": 4, "R-order-statistic": 3, "R-label-injective": 1, "R-aligned-pairs": 4, "R-index-kept": 1, "R-row-order-free": 2}
 
 
 def check(ctx):
